@@ -53,6 +53,21 @@ Theorem jac_text_is_derivative :
 Proof. intros R rO rI radd rmul rsub ropp Rth. exact (jac_text_lemma R rO rI radd rmul rsub ropp Rth). Qed.
 Print Assumptions jac_text_is_derivative.
 
+(* the entries of the temperature row are written wrapped, "(gamma - 1.0) * ( ... ) / kerg / npar", unless
+   they are "0.0", their thermal terms with a bare star (unspaced): the wrapped text parses as that wrapping of a sum whose value is the formal
+   derivative of the unwrapped temperature row (the wrapped row itself: C01.thermal_text_is_wrapped_difference;
+   over the reals the constant factor commutes with the derivative: jac_thermal_row_is_derive below) *)
+Theorem jac_thermal_text_is_derivative :
+  forall (R : Type) (rO rI : R) (radd rmul rsub : R -> R -> R) (ropp : R -> R),
+  ring_theory rO rI radd rmul rsub ropp (@eq R) ->
+  forall (E : env R) (i : ode_input) (col : nat) (ts : list tterm),
+  wf_input i -> has_thermal i = true -> col < n_eqns i ->
+  tterms_of (jac_entry i (i_nspec i) col) = Some ts ->
+  exists inner, parse (wrapped_txt (unspaced ts)) = Some (wrap_ex inner) /\
+    den R rO radd rmul rsub E inner = deqn R rO rI radd rmul ropp E col (rhs_row i (i_nspec i)).
+Proof. intros R rO rI radd rmul rsub ropp Rth. exact (jac_thermal_text_lemma R rO rI radd rmul rsub ropp Rth). Qed.
+Print Assumptions jac_thermal_text_is_derivative.
+
 
 From Coq Require Import Reals RealField.
 From Coquelicot Require Import Coquelicot.
